@@ -930,6 +930,33 @@ def run(ctx):
             ctx.ob("R5.id-wrap", FILE, "PDBFile.set_structure", n, ok, why, n.lineno)
     ctx.floor("id-wraps", n_wrap, 2)
 
+    # the id mode is honoured: what the hybrid36 arm computes reaches the records
+    mode_if = [st for st in setf.body if isinstance(st, ast.If) and isinstance(st.test, ast.Name) and st.test.id == "hybrid36"]
+    ctx.need(len(mode_if) == 1, "if hybrid36: ... else: ... in set_structure")
+    mi = mode_if[0]
+
+    def assigned(block):
+        out = set()
+        for st in block:
+            for n in ast.walk(st):
+                if isinstance(n, ast.Name) and isinstance(n.ctx, ast.Store):
+                    out.add(n.id)
+        return out
+
+    hyb, dec = assigned(mi.body), assigned(mi.orelse)
+    enc_vars = {t.id for st in mi.body for n in ast.walk(st) if isinstance(n, ast.Assign) and "encode_hybrid36" in ast.unparse(n.value)
+                for t in n.targets if isinstance(t, ast.Name)}
+    ctx.need(len(enc_vars) >= 2, "hybrid-36 encoded atom and residue ids")
+    after = setf.body[setf.body.index(mi) + 1:]
+    later_defs = assigned(after)
+    later_uses = {n.id for st in after for n in ast.walk(st) if isinstance(n, ast.Name) and isinstance(n.ctx, ast.Load)}
+    for v in sorted(enc_vars):
+        ctx.ob("R5.id-mode-honoured", FILE, "PDBFile.set_structure", v,
+               v in dec and v not in later_defs and v in later_uses,
+               f"`{v}` holds the hybrid-36 encoded ids when hybrid36=True: it must get its decimal value only in the else arm "
+               f"(assigned there: {v in dec}), must not be assigned again after the mode switch (reassigned: {v in later_defs}) "
+               f"and must be what the records use (used: {v in later_uses})", mi.lineno)
+
     # ---------------- R4 hybrid-36 ----------------------------------------
     h = ctx.src(H36)
     hc = module_consts(h)
@@ -1034,6 +1061,7 @@ MUTANTS = [
     _m("guard-first-axis", "np.round(array.coord[..., i], 3)", "np.round(array.coord[:, i], 3)", "R3.guard-all-models"),
     _m("occupancy-bfactor-swapped", "second_half = (\n            occupancy + b_factor", "second_half = (\n            b_factor + occupancy", "R1.column"),
     _m("reader-swapped", "occupancy[i] = float(line[_occupancy].strip())", "occupancy[i] = float(line[_temp_f].strip())", "R1.reader-slice"),
+    _m("res-id-decimal-after-mode-switch", "            # Residue IDs are supported up to 9999,\n            # but negative IDs are also possible\n            pdb_res_id = np.char.array(\n                np.where(\n                    array.res_id > 0,\n                    ((array.res_id - 1) % _PDB_MAX_RESIDUES) + 1,\n                    array.res_id,\n                ).astype(str)\n            )\n", "        pdb_res_id = np.char.array(\n            np.where(\n                array.res_id > 0,\n                ((array.res_id - 1) % _PDB_MAX_RESIDUES) + 1,\n                array.res_id,\n            ).astype(str)\n        )\n", "R5.id-mode-honoured"),
     _m("wrap-ge0", "atom_id > 0, ((atom_id - 1) % _PDB_MAX_ATOMS) + 1, atom_id", "atom_id >= 0, ((atom_id - 1) % _PDB_MAX_ATOMS) + 1, atom_id", "R5.id-wrap"),
     _m("lines-reset-in-branch", "        self.lines = []\n        # Prepend a single CRYST1 record if we have box information\n        if array.box is not None:", "        if array.box is not None:\n            self.lines = []", "R5.lines-reset"),
     _m("atom-name-width", "+ names.ljust(4)", "+ names.ljust(3)", "R1.column"),
